@@ -23,6 +23,6 @@ for s in SPECS:
     except MissingAnchor as e:
         print('ANCHOR', s['id'], e)
         continue
-    json.dump({'id': s['id'], 'fn': s.get('fn') or s['fns'], 'kind': s['kind'], 'reviewed': 'generated from the pinned tree; see DESIGN.md appendix D for the review notes',
+    json.dump({'id': s['id'], 'fn': s.get('fn') or s['fns'], 'kind': s['kind'], 'reviewed': 'generated from the pinned tree; how each kind of table was reviewed is stated in DESIGN.md §2 (Spec tables) and §9',
                'floor': len(rows), 'rows': rows}, open(p, 'w'), indent=1, sort_keys=True)
     print('wrote', s['id'], len(rows))
